@@ -45,7 +45,7 @@ fn referenced_tokens(sc: &Scenario) -> std::collections::BTreeSet<String> {
     for c in &sc.clients {
         for st in &c.steps {
             match st {
-                Step::Op { token, .. } | Step::Open { token, .. } => {
+                Step::Op { token, .. } | Step::Open { token, .. } | Step::OpenDropped { token, .. } => {
                     s.insert(token.clone());
                 }
                 _ => {}
